@@ -8,7 +8,10 @@ RULE = ("exhaustive: every op sequence of length <= 2 (quick) / 3 (thorough) ove
         "callback does nothing / unsubscribes itself / clears the centre / subscribes another listener / unsubscribes listener 1 or 2 / "
         "publishes again, unsubscribe, clear, publish to two names) followed by a publication, once on a LocalEventCenter (direct mode) and once "
         "on a light.EventCenter; boundary: event queue filled to 997/998/999/1000/1200 by global publications, then drained / published into "
-        "(incl. the owner's channel-mode Publish on a full queue, which blocks); random: 8-50 ops over 3 local centres (direct + channel mode, "
+        "(incl. the owner's channel-mode Publish on a full queue, which blocks); global-fill (60 quick / 600 thorough): 2-4 local centres GSubscribe the same 1-3 names, "
+        "1..all of them are filled to 996-1000 pending events through a private name, the shared names are published before / at / after the fill level "
+        "(k = 1..3 copies), full centres are partially drained in between, and every queue is finally read back completely (ODrain + run-length-encoded bulk receive) - "
+        "a centre with room must get every publication exactly once whatever the other queues hold, for every sync.Map Range order; random: 8-50 ops over 4 local centres (direct + channel mode, "
         "SetLocalUseChan), the global centre and 2 light centres, listener programs of 0-3 re-entrant actions nested up to depth 2. "
         "Non-trivial = at least one listener was actually invoked; distinct = distinct op sequences.")
 TRUSTED_BASE = [
